@@ -39,6 +39,7 @@ ASSUMPTIONS = [
     "measured mean 0.71, std 0.045 of that bound for the triclinic system over 360 seeds)",
     "Python's round(): the constant c of misorientations_random per system is a table in the model, compared with the formula each run",
 ]
+JIT_TWIN = ('utils',)   # groups of harness/jittwin.py: the numba-compiled code is run on the same battery and compared
 TRUSTED = ["scipy Rotation.from_matrix(...).as_quat() (external: the harness passes the same quaternions to the model)"]
 
 import json as _json
